@@ -1,7 +1,7 @@
 /* C12 harnesses: split-ordered list key arithmetic and the bucket-count protocol (sliced from _concurrent_unordered_base.h / _machine.h) */
 #include "verif.h"
 #include <stdlib.h>
-#ifndef C12_LIST   /* ---- key arithmetic and bucket-count protocol ---- */
+#if !defined(C12_LIST) && !defined(C12_SKIP)   /* ---- key arithmetic and bucket-count protocol ---- */
 typedef size_t size_type; typedef size_t sokey_type;
 #define LOOP_rev_1
 /* rehash has no loop on the pinned tree; should one appear (the source carries a TODO about it) it is proved against this contract */
@@ -98,21 +98,32 @@ typedef size_t size_type; typedef size_t sokey_type; typedef size_t key_type;
 typedef uintptr_t node_ptr; typedef node_ptr value_node_ptr;
 #undef NULL
 #define NULL ((uintptr_t)0)
-struct ni { node_ptr h; sokey_type ok; size_t rank; bool eq; };
+typedef uint8_t rank_t;   /* ghost ranks are only ever compared (<, ==): every obligation mentions far fewer than 2^8 of them, so any order-isomorphic embedding is as good as the reals */
+struct ni { node_ptr h; sokey_type ok; rank_t rank; bool eq; };
 #ifdef COVERS   /* manual reachability probes (each must FAIL): ./check does not use them */
 #define COVER(c) __CPROVER_assert(!(c), "COVER " #c)
 #else
 #define COVER(c) ((void)0)
 #endif
-int g_cas_failures;
-struct ni P, Q, W, ME;                       /* records; W.h / ME.h fixed in the harness */
+bool g_cas_failures;
+struct ni P, Q, W, ME;
+#ifdef L_RANGE
+struct ni RB, RE, RM, D, HD, MR0, MR1;  /* the parent range's begin / end / split point, the bucket dummy set_midpoint starts from, the list head, the results of first_value_node */
+#define INFO_EXTRA(p) if (p == RB.h) return RB; if (p == RE.h) return RE; if (p == RM.h) return RM; if (p == D.h) return D; if (p == HD.h) return HD; if (p == MR0.h) return MR0; if (p == MR1.h) return MR1;
+#else
+#define INFO_EXTRA(p)
+#endif                       /* records; W.h / ME.h fixed in the harness */
 bool g_me_linked, g_w_linked, g_created, g_unique_rely;
 node_ptr g_me_next;
 sokey_type g_okstar; key_type g_key; size_t g_hash;
-static struct ni nondet_ni(void);
+static struct ni nondet_ni_raw(void);
+static struct ni nondet_ni(void) { struct ni r = nondet_ni_raw(); r.eq = nondet_bool(); return r; }   /* a bool member is 0 or 1 */
 static struct ni info(node_ptr p) {
     __CPROVER_assert(p != NULL, "C12.safe: a null node pointer is never dereferenced");
+#ifndef L_RANGE
     if (p == P.h) return P; if (p == Q.h) return Q; if (p == ME.h) return ME; if (p == W.h) return W;
+#endif
+    INFO_EXTRA(p)
     struct ni r = nondet_ni(); r.h = p; return r;
 }
 #define NODE_ORDER_KEY(p) (info(p).ok)
@@ -123,11 +134,24 @@ static struct ni info(node_ptr p) {
 static bool same(struct ni a, struct ni b) { return (a.h != b.h) | ((a.ok == b.ok) & (a.rank == b.rank) & (a.eq == b.eq)); }
 /* W against a linked node x: distinct nodes have distinct ranks; rank order implies order-key order */
 static bool sortedw(struct ni x) { return !g_w_linked | (((x.h == W.h) | (x.rank != W.rank)) & (!(W.rank < x.rank) | (W.ok <= x.ok)) & (!(W.rank > x.rank) | (W.ok >= x.ok))); }
+#ifdef L_RANGE   /* the records the range section holds: same handle - same node; two nodes of the list: distinct ranks, rank order implies key order */
+static bool cons(struct ni a, struct ni b) { return (b.h == NULL) | ((a.h == b.h) ? ((a.ok == b.ok) & (a.rank == b.rank)) : ((a.rank != b.rank) & (!(a.rank < b.rank) | (a.ok <= b.ok)) & (!(a.rank > b.rank) | (a.ok >= b.ok)))); }
+#define CONS(a, b) ((b).h == NULL || ((a).h == (b).h ? ((a).ok == (b).ok && (a).rank == (b).rank) : ((a).rank != (b).rank && (!((a).rank < (b).rank) || (a).ok <= (b).ok) && (!((a).rank > (b).rank) || (a).ok >= (b).ok))))
+#define CONSALL(x) (CONS(x, RB) && CONS(x, RE) && CONS(x, RM) && CONS(x, D) && CONS(x, HD) && CONS(x, MR0) && CONS(x, MR1))
+#define WORD_EXTRA(q) (cons(q, RB) & cons(q, RE) & cons(q, RM) & cons(q, D) & cons(q, HD) & cons(q, MR0) & cons(q, MR1))
+#define WLINK_EXTRA 1
+#elif defined(L_DUMMY)   /* rely: at most one node with the dummy key is in the list */
+#define WORD_EXTRA(q) (!g_w_linked | ((q).ok != g_okstar) | ((q).h == W.h))
+#define WLINK_EXTRA ((P.ok != g_okstar) & ((Q.h == NULL) | (Q.ok != g_okstar)))
+#else
+#define WORD_EXTRA(q) 1
+#define WLINK_EXTRA 1
+#endif
 static bool word_inv(struct ni p, struct ni q) {
     bool tail = !g_w_linked | !(W.rank > p.rank);
     bool link = (q.h != p.h) & (q.rank > p.rank) & (q.ok >= p.ok) & ((q.h != ME.h) | g_me_linked) & ((q.h != W.h) | g_w_linked) & sortedw(q)
               & same(q, P) & same(q, Q) & same(q, W) & same(q, ME) & (!q.eq | (q.ok == g_okstar))
-              & (!g_w_linked | !((W.rank > p.rank) & (W.rank < q.rank)));
+              & (!g_w_linked | !((W.rank > p.rank) & (W.rank < q.rank))) & WORD_EXTRA(q);
     return sortedw(p) & (q.h == NULL ? tail : link);
 }
 /* W is appended behind every linked node y whose order key is <= the key's */
@@ -135,15 +159,16 @@ static bool w_after(struct ni y) { return (y.h == NULL) | (y.ok > g_okstar) | (W
 static void interfere_w(void) {
     if (!g_w_linked && nondet_bool()) {                                  /* another thread links W */
         g_w_linked = true;
-        if (g_unique_rely) __CPROVER_assume(!g_me_linked & w_after(P) & w_after(Q));
+        if (g_unique_rely) __CPROVER_assume(!g_me_linked & w_after(P) & w_after(Q) & WLINK_EXTRA);
     }
 }
 struct pq { struct ni p, q; };
 static struct pq shared_word(node_ptr n) {           /* the next pointer of the linked node n after arbitrary interference: (n's record, the value's record) */
     struct pq r; r.p = info(n); interfere_w(); r.q = nondet_ni(); __CPROVER_assume(word_inv(r.p, r.q)); return r;
 }
+bool g_loaded;
 static node_ptr do_load_next(node_ptr n) {
-    __CPROVER_assert(n != NULL, "C12.safe: a null node pointer is never dereferenced");
+    __CPROVER_assert(n != NULL, "C12.safe: a null node pointer is never dereferenced"); g_loaded = true;
     if (PRIVATE(n)) return g_me_next;
     struct pq r = shared_word(n); P = r.p; Q = r.q; return Q.h;
 }
@@ -162,8 +187,9 @@ static void link_extra(struct ni p, struct ni c);
 static struct casres do_cas_next(node_ptr n, node_ptr e, node_ptr d) {
     __CPROVER_assert(n != NULL, "C12.safe: a null node pointer is never dereferenced");
     __CPROVER_assert(!PRIVATE(n), "C12.link: a node is published by a CAS on the next pointer of a node that is in the list");
+    __CPROVER_assert(n == P.h && e == Q.h, "C12.progress: the linking CAS expects the value this thread last read from that very next pointer (with any other expectation it could never succeed, even without contention: the insert would spin for ever)");
     struct pq r = shared_word(n); struct casres c; c.old = r.q.h; c.ok = (r.q.h == e);
-    if (!c.ok) { g_cas_failures++; return c; }
+    if (!c.ok) { g_cas_failures = true; return c; }
     __CPROVER_assert(d == ME.h && g_created, "C12.link: the node linked is the node this thread created");
     __CPROVER_assert(!g_me_linked, "C12.link: a node is linked at most once");
     __CPROVER_assert(g_me_next == e, "C12.link: the new node's next pointer is the successor it is put in front of - no node behind the insertion point becomes unreachable");
@@ -173,11 +199,11 @@ static struct casres do_cas_next(node_ptr n, node_ptr e, node_ptr d) {
 }
 static void list_setup(void) {
     P = nondet_ni(); Q = nondet_ni(); W = nondet_ni(); ME = nondet_ni(); P.h = NULL; Q.h = NULL; __CPROVER_assume(W.h != NULL && ME.h != NULL && W.h != ME.h);
-    g_me_linked = false; g_w_linked = nondet_bool(); g_created = false; g_me_next = nondet_uintptr_t(); g_cas_failures = 0;
+    g_me_linked = false; g_w_linked = nondet_bool(); g_created = false; g_me_next = nondet_uintptr_t(); g_cas_failures = false;
 }
 /* position of the thread in the list: prev/curr are the pair last read */
 #define TRACK(pv, cu) ((pv) == P.h && (cu) == Q.h && P.h != NULL && P.h != ME.h && SAME(P, W) && SAME(Q, W) && (P.h != W.h || g_w_linked) && (Q.h != W.h || g_w_linked) && !g_me_linked \
-    && (Q.h == NULL || (Q.h != ME.h && Q.h != P.h && Q.ok >= P.ok)))
+    && (Q.h == NULL || (Q.h != ME.h && Q.h != P.h && Q.ok >= P.ok && WORD_EXTRA(Q))))
 
 #ifdef L_INSERT
 /* ---- search_after + try_insert + internal_insert: any list, any interleaving, unique-key and multi containers (allow_multimapping arbitrary) ----
@@ -186,7 +212,12 @@ static void list_setup(void) {
 struct sres { value_node_ptr first; bool second; };
 struct iir { value_node_ptr remaining_node; value_node_ptr node_with_equal_key; bool inserted; };
 struct cub { size_type my_size, my_bucket_count; };
-bool allow_multimapping; int g_size_incs;
+#ifdef MULTI
+#define allow_multimapping ((bool)MULTI)   /* the class template's constant */
+#else
+bool allow_multimapping;
+#endif
+int g_size_incs;
 #define NODE_KEY(x) (__CPROVER_assert((info(x).ok & 1) == 1, "C12.safe: a key is read only from an element, never from a dummy node (dummies have no value)"), (x))
 #define KEY_EQUAL(a, b) (__CPROVER_assert((b) == g_key, "C12.find: nodes are compared with the key being inserted"), info(a).eq)
 #define KEY_HASH(k) (g_hash)
@@ -196,6 +227,8 @@ static void link_extra(struct ni p, struct ni c) { if (!allow_multimapping) {
 #include "nodes.inc"
 #define FADD_insert_FETCH_ADD_1(w, v) ({ __CPROVER_assert(g_me_linked, "C12.size: the element count is raised only for a linked node"); g_size_incs++; size_type o_ = (w); (w) = o_ + (v); o_; })
 #define LOAD_insert_LOAD_1(w) (w)
+#define LOAD_insert_LOAD_2(w) (w)
+#define LOAD_insert_LOAD_3(w) (w)
 static void STUB_adjust_table_size(struct cub *s, size_type total, size_type cur) { }
 static sokey_type STUB_split_order_key_regular(sokey_type h) { __CPROVER_assert(h == g_hash, "C12.key: the order key is computed from the key's hash"); return g_okstar; }
 /* prepare_bucket (job solist.bucket): the linked dummy node of the key's bucket; its order key is even and smaller than the element's (job sokey.order) */
@@ -207,15 +240,19 @@ static value_node_ptr STUB_create_insert_node(struct cub *s, sokey_type ok) { __
 #define L1 (!g_w_linked || W.rank > P.rank)
 #define L2 (Q.h == NULL || !g_w_linked || Q.h == W.h || W.rank > Q.rank || Q.ok > g_okstar)
 #define POS(pv, cu) (TRACK(pv, cu) && P.ok <= g_okstar && (allow_multimapping || (L1 && L2)))
-#define LOOP_search_1 __CPROVER_assigns(*prev, curr, g_w_linked, P, Q) \
+#define LOOP_search_1 __CPROVER_assigns(*prev, curr, g_w_linked, g_loaded, P, Q) \
     __CPROVER_loop_invariant(POS(*prev, curr) && order_key == g_okstar && key == g_key)
-#define LOOP_insert_1 __CPROVER_assigns(prev, curr, search_result, g_cas_failures, g_me_next, g_me_linked, g_w_linked, P, Q) \
+#define LOOP_insert_1 __CPROVER_assigns(prev, curr, search_result, g_cas_failures, g_me_next, g_me_linked, g_w_linked, g_loaded, P, Q) \
     __CPROVER_loop_invariant(POS(prev, curr) && g_created && new_node == ME.h && order_key == g_okstar && key == g_key && g_size_incs == 0 \
        && (curr == NULL || Q.ok > g_okstar || (allow_multimapping && Q.ok == g_okstar)))
 #include "insert.inc"
 size_t IN_hash; bool IN_multi;
 void h_insert(void) {
-    list_setup(); allow_multimapping = IN_multi = nondet_bool(); g_unique_rely = !allow_multimapping;
+    list_setup();
+#ifndef MULTI
+    allow_multimapping = IN_multi = nondet_bool();
+#endif
+    g_unique_rely = !allow_multimapping;
     g_hash = IN_hash = nondet_size_t(); g_key = nondet_size_t(); g_okstar = nondet_size_t() | 1; g_size_incs = 0;   /* the key's order key: odd (job sokey.order) */
     /* this thread's node and W carry a key equivalent to K*: equivalent keys hash alike */
     __CPROVER_assume(ME.eq && ME.ok == g_okstar && W.eq && W.ok == g_okstar);
@@ -230,8 +267,640 @@ void h_insert(void) {
         OBLIGATION(r.remaining_node == (g_created ? ME.h : NULL) && g_size_incs == 0, "C12.insert: the losing insert hands its unlinked node back to be freed (and only that), and does not count an element");
     }
     OBLIGATION(allow_multimapping || !(g_me_linked && g_w_linked), "C12.unique: a unique-key container never holds two nodes with equivalent keys");
-    COVER(!allow_multimapping && r.inserted); COVER(!allow_multimapping && !r.inserted && g_created && g_w_linked && r.node_with_equal_key == W.h); COVER(allow_multimapping && r.inserted && g_w_linked); COVER(g_cas_failures > 0 && r.inserted);
+    COVER(!allow_multimapping && r.inserted); COVER(!allow_multimapping && !r.inserted && g_created && g_w_linked && r.node_with_equal_key == W.h); COVER(allow_multimapping && r.inserted && g_w_linked); COVER(g_cas_failures && r.inserted);
     VACUITY_END();
 }
 #endif /* L_INSERT */
+
+#ifdef L_DUMMY
+/* ---- insert_dummy_node + try_insert: lazy bucket initialisation, any number of threads initialising the same bucket, elements being inserted around it ----
+   ME = this thread's dummy node (order key D, even), W = an arbitrary OTHER dummy node with the same order key.  Rely (the guarantee link_extra of the
+   other initialisers): a node with order key D is linked only while no other node with that order key is linked. */
+struct cub { int unused; };
+bool g_destroyed;
+static void link_extra(struct ni p, struct ni c) {
+    __CPROVER_assert(!g_w_linked, "C12.dummy: when a dummy node is linked no other dummy node of the same bucket is in the list - at most one dummy per bucket is ever linked");
+    __CPROVER_assert(p.ok < ME.ok && (c.h == NULL || ME.ok < c.ok), "C12.dummy: a dummy node's order key occurs once in the list (strictly between its neighbours' keys)"); }
+#include "nodes.inc"
+static node_ptr STUB_create_dummy_node(struct cub *s, sokey_type ok) { __CPROVER_assert(!g_created, "C12.link: one node is created per call");
+    __CPROVER_assert(ok == g_okstar, "C12.key: the dummy node carries the requested order key"); g_created = true; g_me_next = NULL; return ME.h; }
+static void STUB_destroy_node(struct cub *s, node_ptr n) {
+    __CPROVER_assert(n == ME.h && g_created && !g_me_linked, "C12.dummy: only the thread's own, never linked dummy node is destroyed (a node that is in the list is never freed by an initialiser)");
+    __CPROVER_assert(!g_destroyed, "C12.dummy: the spare dummy node is freed once"); g_destroyed = true; }
+#define HELD(pv) ((pv) == P.h && P.h != NULL && P.h != ME.h && SAME(P, W) && (P.h != W.h || g_w_linked) && !g_me_linked && P.ok < g_okstar && g_created && !g_destroyed)
+#define LOOP_dummy_1 __CPROVER_assigns(prev_node, next_node, g_cas_failures, g_me_next, g_me_linked, g_w_linked, g_loaded, g_destroyed, P, Q) \
+    __CPROVER_loop_invariant(HELD(prev_node) && dummy_node == ME.h && order_key == g_okstar)
+#define LOOP_dummy_2 __CPROVER_assigns(prev_node, next_node, g_w_linked, g_loaded, P, Q) \
+    __CPROVER_loop_invariant(HELD(prev_node) && TRACK(prev_node, next_node) && dummy_node == ME.h && order_key == g_okstar)
+#include "dummy.inc"
+void h_dummy(void) {
+    list_setup(); g_unique_rely = true; g_destroyed = false;
+    g_okstar = nondet_size_t() & ~(size_t)1;                              /* a dummy order key: even (job sokey.order) */
+    __CPROVER_assume(ME.ok == g_okstar && !ME.eq && W.ok == g_okstar && !W.eq);
+    /* the parent bucket's dummy node: in the list, with a smaller order key (job sokey.order: a bucket's dummy sorts after its parent's) */
+    P = nondet_ni(); __CPROVER_assume(P.h != NULL && P.h != ME.h && P.h != W.h && P.ok < g_okstar && sortedw(P));
+    struct cub c; node_ptr r = cub_insert_dummy_node(&c, P.h, g_okstar);
+    OBLIGATION(r != NULL && info(r).ok == g_okstar, "C12.dummy: insert_dummy_node returns a node that carries the bucket's dummy key");
+    OBLIGATION(r == ME.h ? (g_me_linked && !g_destroyed) : (r == Q.h && !g_me_linked && g_destroyed), "C12.dummy: the result is in the list: either the thread's own node, now linked, or the node another thread linked first - and then the loser has freed its own node");
+    OBLIGATION(!(g_me_linked && g_w_linked), "C12.dummy: two dummy nodes of one bucket are never both linked");
+    OBLIGATION(!g_w_linked || r == W.h, "C12.dummy: every initialiser of a bucket gets the same node - the one dummy of the bucket that is in the list");
+    COVER(r == ME.h); COVER(r != ME.h && g_cas_failures); COVER(r == W.h);
+    VACUITY_END();
+}
+#endif /* L_DUMMY */
+
+#if defined(L_BUCKET) || defined(L_PREPARE)
+#undef ATOMIC_LOAD_AT
+#undef ATOMIC_STORE_AT
+#undef ATOMIC_CAS_AT
+#define ATOMIC_LOAD_AT(site, w) LOADW(w)
+#define ATOMIC_STORE_AT(site, w, v) STOREW(w, v)
+#define ATOMIC_CAS_AT(site, w, e, d) CASW(w, e, d)
+#define SEG_WORD(self, i) 1, (i)
+#define BC_WORD(self) 0, 0
+#define LOADW(kind, i) ((kind) ? seg_load(i) : bc_load())
+#define STOREW(kind, i, v) seg_store((i), (v))
+#define CASW(kind, i, e, d) seg_cas((i), (e), (d))
+#define POW2(x) ((x) != 0 && (((x) & ((x) - 1)) == 0))
+struct cub { size_type my_bucket_count; };
+#endif
+
+#ifdef L_BUCKET
+/* ---- get_bucket + init_bucket: the segment-table entries of ONE arbitrary bucket b and of its parent; any number of threads initialising them ----
+   DB / DP: THE dummy node of bucket b / of its parent - by solist.dummy every initialiser of a bucket ends up with the same node, so "the node that is, or will
+   be, linked as the bucket's dummy" is one fixed node (a prophecy constant); g_db_linked / g_dp_linked say whether it is in the list yet.
+   Invariant of a table entry: null, or the bucket's dummy node, which then is in the list.  Rely: other threads keep the invariant and never change a non-null entry. */
+#define HEAD ((node_ptr)16)
+#define CUB_HEAD(self) HEAD
+size_t g_b, g_par; node_ptr g_DB, g_DP, g_seg_b, g_seg_p; bool g_db_linked, g_dp_linked; sokey_type g_dk_b, g_dk_p;
+#define SEGINV ((g_seg_b == NULL || (g_seg_b == g_DB && g_db_linked)) && (g_seg_p == NULL || (g_seg_p == g_DP && g_dp_linked)))
+static void interfere_seg(void) {
+    if (!g_db_linked && nondet_bool()) g_db_linked = true;
+    if (!g_dp_linked && nondet_bool()) g_dp_linked = true;
+    if (g_seg_b == NULL && g_db_linked && nondet_bool()) g_seg_b = g_DB;
+    if (g_seg_p == NULL && g_dp_linked && nondet_bool()) g_seg_p = g_DP;
+}
+static node_ptr seg_load(size_t i) { interfere_seg(); if (i == g_b) return g_seg_b; if (g_b != 0 && i == g_par) return g_seg_p; return nondet_uintptr_t(); }
+static size_type bc_load(void) { return nondet_size_t(); }
+static void seg_guarantee(size_t i, node_ptr v) {
+    __CPROVER_assert((i == g_b && v == g_DB && g_db_linked) || (g_b != 0 && i == g_par && v == g_DP && g_dp_linked),
+        "C12.bucket: a segment-table entry only ever receives the one dummy node of ITS bucket, and only once that node is in the list (every thread that looks the bucket up starts from a node of the list that precedes the bucket's elements)");
+}
+static void seg_store(size_t i, node_ptr v) { interfere_seg(); seg_guarantee(i, v); if (i == g_b) g_seg_b = v; else if (i == g_par) g_seg_p = v; }
+static bool seg_cas(size_t i, node_ptr *e, node_ptr d) { interfere_seg(); node_ptr o = (i == g_b) ? g_seg_b : (g_b != 0 && i == g_par) ? g_seg_p : nondet_uintptr_t();
+    if (o != *e) { *e = o; return false; } seg_guarantee(i, d); if (i == g_b) g_seg_b = d; else if (i == g_par) g_seg_p = d; return true; }
+/* get_parent / split_order_key_dummy: job sokey.order (parent index smaller, parent's dummy key smaller) */
+static size_type STUB_get_parent(size_type b) { __CPROVER_assert(b != 0, "C12.bucket: bucket 0 has no parent"); __CPROVER_assert(b == g_b, "C12.bucket: the parent is computed for the bucket being initialised"); return g_par; }
+static sokey_type STUB_split_order_key_dummy(size_type b) { return b == g_b ? g_dk_b : (b == g_par ? g_dk_p : (nondet_size_t() & ~(size_t)1)); }
+/* init_bucket's own contract, used for the recursive call: the entry of the (smaller) bucket ends non-null */
+static void STUB_init_bucket(struct cub *s, size_type j) { __CPROVER_assert(g_b != 0 && j == g_par, "C12.bucket: the initialisation recursion descends to the parent bucket (a smaller index: it terminates)");
+    interfere_seg(); g_dp_linked = true; g_seg_p = g_DP; }
+/* insert_dummy_node's contract (job solist.dummy): started from a node of the list with a smaller order key it returns THE dummy of the key, which is in the list */
+static node_ptr STUB_insert_dummy_node(struct cub *s, node_ptr parent, sokey_type key) {
+    __CPROVER_assert(parent != NULL && parent == g_DP && g_dp_linked, "C12.bucket: the bucket's dummy node is inserted starting from the parent bucket's dummy node, which is in the list");
+    __CPROVER_assert(key == g_dk_b, "C12.bucket: the dummy node is inserted with the bucket's own dummy order key");
+    g_db_linked = true; return g_DB; }
+#define LOOP_init_bucket_1 __CPROVER_assigns(g_seg_b, g_seg_p, g_db_linked, g_dp_linked) __CPROVER_loop_invariant(SEGINV && g_b != 0 && bucket == g_b && parent_bucket == g_par)
+#include "bucket.inc"
+size_t IN_b;
+void h_bucket(void) {
+    g_b = IN_b = nondet_size_t(); g_par = nondet_size_t(); __CPROVER_assume(g_b == 0 || g_par < g_b);
+    g_DB = nondet_uintptr_t(); g_DP = nondet_uintptr_t(); __CPROVER_assume(g_DB != NULL && g_DP != NULL && g_DB != g_DP);
+    g_db_linked = nondet_bool(); g_dp_linked = nondet_bool(); g_seg_b = nondet_uintptr_t(); g_seg_p = nondet_uintptr_t();
+    g_dk_b = nondet_size_t() & ~(size_t)1; g_dk_p = nondet_size_t() & ~(size_t)1; __CPROVER_assume(g_dk_p < g_dk_b);
+    if (g_b == 0) { g_DB = HEAD; g_db_linked = true; }                   /* bucket 0 is the list head, always in the list */
+    __CPROVER_assume(SEGINV);
+    struct cub c; node_ptr r = cub_get_bucket(&c, g_b);
+    OBLIGATION(r != NULL && r == g_DB && g_db_linked, "C12.bucket: get_bucket returns the bucket's one dummy node, and that node is in the list (never null, never a private node)");
+    interfere_seg();
+    OBLIGATION(SEGINV && g_seg_b == g_DB, "C12.bucket: afterwards the bucket's table entry is set, and stays set to that node");
+    VACUITY_END();
+}
+#endif /* L_BUCKET */
+
+#ifdef L_PREPARE
+/* ---- prepare_bucket: the bucket index is hash mod the current bucket count, for every power-of-two count (constant divisor per unrolled iteration) ---- */
+size_t g_count, g_asked; int g_calls;
+static size_type bc_load(void) { return g_count; }
+static node_ptr seg_load(size_t i) { return NULL; }
+static node_ptr cub_get_bucket(struct cub *s, size_type b) { g_asked = b; g_calls++; return (node_ptr)16; }
+#include "prepare.inc"
+size_t IN_h;
+void h_prepare(void) {
+    size_t h = IN_h = nondet_size_t(); struct cub c;
+    for (size_t k = 0; k < 63; ++k) { g_count = (size_t)1 << k; g_calls = 0; node_ptr r = cub_prepare_bucket(&c, h);
+        OBLIGATION(g_calls == 1 && g_asked == (h & (g_count - 1)) && r == (node_ptr)16, "C12.bucket: prepare_bucket looks up the bucket hash mod bucket_count (the low bits of the hash: the bucket whose dummy precedes the key, job sokey.order) and returns its node"); }
+    VACUITY_END();
+}
+#endif /* L_PREPARE */
+
+#ifdef L_RANGE
+/* ---- const_range_type (set_midpoint, the splitting constructor, the constructor from a container, begin/end, empty, is_divisible) + first_value_node, under concurrent
+   inserts and bucket initialisations.  Every node a range stores is an element (or null = end of list): then begin()/end() return exactly that node whatever is inserted
+   later, and the two halves of a split share ONE boundary node fixed at split time. ---- */
+#undef ATOMIC_LOAD_AT
+#define ATOMIC_LOAD_AT(site, w) LOADK(site, w)
+#define LOADK(site, ...) LOADK2(site, __VA_ARGS__, 0, 0)
+#define LOADK2(site, a, b, ...) LOADK_##site(a, b)
+#define LOADK_node_next_LOAD_1(a, b) do_load_next(a)
+#define LOADK_range_LOAD_1(a, b) LOADW(a, b)
+#define LOADK_range_LOAD_2(a, b) LOADW(a, b)
+#define LOADK_range_LOAD_3(a, b) LOADW(a, b)
+#define LOADK_range_LOAD_4(a, b) LOADW(a, b)
+#define LOADK_range_LOAD_5(a, b) LOADW(a, b)
+#define SEG_WORD(self, i) 1, (i)
+#define BC_WORD(self) 0, 0
+#define LOADW(kind, i) ((kind) ? seg_load(i) : bc_load())
+struct cub { int unused; };
+struct crange { struct cub *my_instance; node_ptr my_begin_node, my_end_node, my_midpoint_node; };
+#define ITER(x) (x)
+#define CUB_HEAD(t) (HD.h)
+static void link_extra(struct ni p, struct ni c) { }
+#include "nodes.inc"
+size_t g_seg_i; node_ptr g_seg_v; size_t g_rb_x; sokey_type g_rb_r; int g_nmr;
+static bool consall(struct ni n) { return cons(n, RB) & cons(n, RE) & cons(n, RM) & cons(n, D) & cons(n, HD) & cons(n, MR0) & cons(n, MR1); }
+static size_type bc_load(void) { size_type c = nondet_size_t(); __CPROVER_assume(c != 0); return c; }
+/* a segment-table entry (job solist.bucket): null, or the bucket's dummy node, which is in the list and carries the bucket's dummy key reverse_bits(bucket); a non-null entry never changes;
+   entry 0 is set as soon as the container holds an element */
+static node_ptr seg_load(size_t i) {
+    if (i == g_seg_i && g_seg_v != NULL) return g_seg_v;
+    node_ptr d = nondet_uintptr_t(); if (i == 0) __CPROVER_assume(d != NULL);
+    D.h = NULL;
+    if (d != NULL) { struct ni n = nondet_ni(); n.h = d; n.eq = false; __CPROVER_assume((n.ok & 1) == 0 && (i != g_rb_x || n.ok == g_rb_r) && consall(n)); D = n; }
+    g_seg_i = i; g_seg_v = d; return d;
+}
+/* reverse_bits as an uninterpreted function: equal arguments give equal results; reverse_bits(b) is the dummy key of bucket b */
+static size_t STUB_reverse_bits(size_t x) { size_t r = nondet_size_t(); if (x == g_rb_x) return g_rb_r; if (x == g_seg_i && g_seg_v != NULL) r = D.ok; g_rb_x = x; g_rb_r = r; return r; }
+static size_type STUB_get_parent(size_type b) { __CPROVER_assert(b != 0, "TBB_ASSERT: bucket 0 has no parent"); size_type p = nondet_size_t(); __CPROVER_assume(p < b); return p; }
+/* first_value_node's contract (job solist.first_value_node): an element or null is returned as it is, without reading any next pointer; from a dummy node the result is null or an element behind it */
+static node_ptr fvn(struct cub *c, node_ptr x) {
+    if (x == NULL) return NULL;
+    struct ni a = info(x); if ((a.ok & 1) == 1) return x;
+    node_ptr r = nondet_uintptr_t(); if (r == NULL) return NULL;
+    struct ni n = nondet_ni(); n.h = r; __CPROVER_assume((n.ok & 1) == 1 && n.rank > a.rank && n.ok >= a.ok && consall(n));
+    if ((g_nmr & 1) == 0) MR0 = n; else MR1 = n; g_nmr = (g_nmr + 1) & 1; return r;
+}
+#define FVN(inst, x) fvn((inst), (x))
+#define LOOP_midpoint_1 __CPROVER_assigns(mid_bucket, g_seg_i, g_seg_v, D) \
+    __CPROVER_loop_invariant((g_seg_v == NULL && D.h == NULL) || (g_seg_v != NULL && g_seg_v == D.h && (D.ok & 1) == 0 && (g_seg_i != g_rb_x || D.ok == g_rb_r) && CONSALL(D))) __CPROVER_decreases(mid_bucket)
+#include "range.inc"
+#define ELEM(n) ((n).h == NULL || ((n).ok & 1) == 1)
+static struct ni rec(node_ptr p) { struct ni z; z.h = NULL; z.ok = 0; z.rank = 0; z.eq = false; return p == NULL ? z : info(p); }
+static void range_setup(void) {
+    list_setup(); g_w_linked = false; g_me_linked = true; g_unique_rely = false; g_okstar = nondet_size_t(); g_seg_v = NULL; g_seg_i = 0; g_rb_x = nondet_size_t(); g_rb_r = nondet_size_t(); g_nmr = 0; P.h = NULL; Q.h = NULL;
+    RB = nondet_ni(); RE = nondet_ni(); RM = nondet_ni(); D = nondet_ni(); HD = nondet_ni(); MR0 = nondet_ni(); MR1 = nondet_ni(); D.h = NULL; MR0.h = NULL; MR1.h = NULL;
+    __CPROVER_assume(HD.h != NULL && HD.ok == 0 && HD.rank == 0 && HD.h != ME.h && HD.h != W.h);
+}
+#define ORDERED(b, m, e) ((m).h == (e).h || (m).h == NULL || (m).rank > (b).rank)
+void h_range_split(void) {
+    range_setup();
+    /* the parent range: begin is an element, end and split point are elements or null (= end of the list); begin < split point <= end in list order; divisible */
+    __CPROVER_assume(RB.h != NULL && RB.h != ME.h && RE.h != ME.h && RM.h != ME.h && ELEM(RB) && ELEM(RE) && ELEM(RM) && RB.h != HD.h && RE.h != HD.h && RM.h != HD.h
+        && cons(RB, RE) && cons(RB, RM) && cons(RM, RE) && cons(RE, RM) && cons(RB, HD) && cons(RM, HD) && cons(RE, HD)
+        && (RM.h == RE.h || (RM.h != NULL && RM.rank > RB.rank && (RE.h == NULL || RM.rank < RE.rank))));
+    struct cub c; struct crange R, N; R.my_instance = &c; R.my_begin_node = RB.h; R.my_end_node = RE.h; R.my_midpoint_node = RM.h;
+    __CPROVER_assume(crange_is_divisible(&R));                 /* ranges are split only when they say they are divisible */
+    crange_split_ctor(&N, &R);
+    OBLIGATION(N.my_begin_node == RM.h && R.my_end_node == RM.h, "C12.range: after a split the left half's end and the right half's begin are ONE node, the parent's split point as it was determined before the split");
+    OBLIGATION(R.my_begin_node == RB.h && N.my_end_node == RE.h, "C12.range: the two halves together cover exactly the parent range");
+    struct ni nm = rec(N.my_midpoint_node), rm = rec(R.my_midpoint_node);
+    OBLIGATION(ELEM(nm) && ELEM(rm), "C12.range: the split point a range stores is an element (or the end of the list), never a bucket's dummy node - so it is one fixed node, not something re-resolved at each use");
+    OBLIGATION(ORDERED(RM, nm, RE) && ORDERED(RB, rm, RM), "C12.range: a range's split point is its end (not divisible) or lies behind its begin (the left half of a later split is not empty)");
+    /* later, whatever has been inserted meanwhile */
+    node_ptr le = crange_end(&R), rb = crange_begin(&N), lb = crange_begin(&R), re = crange_end(&N);
+    OBLIGATION(le == RM.h && rb == RM.h, "C12.range: left.end() and right.begin() are that same node at every later moment, whatever is inserted behind the midpoint bucket's dummy node meanwhile - the halves partition the parent for every traversal");
+    OBLIGATION(lb == RB.h && re == RE.h, "C12.range: begin() and end() of a range never re-resolve to a different node");
+    VACUITY_END();
+}
+void h_range_ctor(void) {
+    range_setup(); RB.h = NULL; RE.h = NULL; RM.h = NULL;
+    struct cub c; struct crange R; crange_table_ctor(&R, &c);
+    struct ni b = rec(R.my_begin_node), m = rec(R.my_midpoint_node);
+    OBLIGATION(R.my_end_node == NULL && ELEM(b) && (b.h == NULL || b.rank > HD.rank), "C12.range: the range of a container runs from its first element to the end of the list");
+    OBLIGATION(ELEM(m) && (b.h == NULL ? m.h == NULL : ORDERED(b, m, RE)), "C12.range: its split point is an element behind the first one, or the end");
+    node_ptr lb = crange_begin(&R), le = crange_end(&R);
+    OBLIGATION(lb == R.my_begin_node && le == NULL, "C12.range: begin() and end() of a range never re-resolve to a different node");
+    COVER(m.h != NULL);
+    VACUITY_END();
+}
+#endif /* L_RANGE */
+
+#ifdef L_FIND
+/* ---- lookups and traversal under concurrent inserts: first_value_node, solist_iterator::operator++, internal_find, internal_equal_range ----
+   W = ONE arbitrary element that is in the list before the operation starts (g_wb: at or behind the starting node). */
+struct cub { int unused; };
+struct solist_iterator { node_ptr my_node_ptr; };
+struct vpair { value_node_ptr first, second; };
+bool allow_multimapping, g_wb, g_ww, g_hit_set;   /* g_ww: W still lies ahead of the walk (dropped once the lookup has hit) */ struct ni g_hit; rank_t g_lo; node_ptr g_x0;
+static void link_extra(struct ni p, struct ni c) { }
+#define NODE_KEY(x) (__CPROVER_assert((info(x).ok & 1) == 1, "C12.safe: a key is read only from an element, never from a dummy node (dummies have no value)"), (x))
+static bool key_equal(node_ptr a) { struct ni n = info(a); if (n.eq && !g_hit_set) { g_hit = n; g_hit_set = true; g_ww = false; } return n.eq; }
+#define KEY_EQUAL(a, b) (__CPROVER_assert((b) == g_key, "C12.find: nodes are compared with the key looked up"), key_equal(a))
+#define KEY_HASH(k) (g_hash)
+static sokey_type STUB_split_order_key_regular(sokey_type h) { __CPROVER_assert(h == g_hash, "C12.key: the order key is computed from the key's hash"); return g_okstar; }
+#define SORTW(x) (((x).h == W.h || (x).rank != W.rank) && (!(W.rank < (x).rank) || W.ok <= (x).ok) && (!(W.rank > (x).rank) || W.ok >= (x).ok))
+/* the walk stands on Q; W, when it lies ahead, has not been passed */
+#define WALK(v) ((v) == Q.h && P.h != Q.h && (Q.h == NULL || (SAME(Q, W) && SORTW(Q))) && (!g_ww || (Q.h != NULL && (Q.h == W.h || W.rank > Q.rank))))
+/* prepare_bucket (job solist.bucket): the dummy node of the key's bucket; in the list; order key even and smaller than the key's (job sokey.order) */
+static node_ptr STUB_prepare_bucket(struct cub *s, sokey_type h) { __CPROVER_assert(h == g_hash, "C12.key: the bucket is chosen from the key's hash");
+    P.h = NULL; Q = nondet_ni(); __CPROVER_assume(Q.h != NULL && (Q.ok & 1) == 0 && Q.ok < g_okstar && !Q.eq && SAME(Q, W) && SORTW(Q)); return Q.h; }
+#include "nodes.inc"
+#define LOOP_fvn_1 __CPROVER_assigns(first_node, P, Q, g_loaded) __CPROVER_loop_invariant(WALK(first_node) && (Q.h == NULL || Q.rank >= g_lo) && (g_loaded || first_node == g_x0) && (!g_hit_set || Q.h == NULL || Q.rank > g_hit.rank))
+#define LOOP_inc_1 __CPROVER_assigns(next_node, P, Q, g_loaded) __CPROVER_loop_invariant(WALK(next_node) && (Q.h == NULL || Q.rank > g_lo))
+#define LOOP_find_1 __CPROVER_assigns(curr, P, Q, g_loaded, g_hit, g_hit_set, g_ww) __CPROVER_loop_invariant(WALK(curr) && order_key == g_okstar && key == g_key && !g_hit_set && g_ww == g_wb)
+#define LOOP_equal_range_1 LOOP_find_1
+#define LOOP_equal_range_2 __CPROVER_assigns(last, P, Q, g_loaded) __CPROVER_loop_invariant(last == Q.h && P.h != Q.h && Q.h != NULL && g_hit_set && !g_ww && g_hit.h == first && Q.rank >= g_hit.rank && key == g_key && SAME(Q, W) && SORTW(Q))
+#include "fvn.inc"
+#include "find.inc"
+static void find_setup(void) {
+    list_setup(); g_w_linked = true; g_me_linked = true; g_unique_rely = false; g_loaded = false; g_hit_set = false; g_lo = 0; g_x0 = NULL; P.h = NULL; Q.h = NULL;
+    g_wb = g_ww = nondet_bool(); g_hash = nondet_size_t(); g_key = nondet_size_t(); g_okstar = nondet_size_t() | 1; allow_multimapping = nondet_bool();
+    __CPROVER_assume((W.ok & 1) == 1 && (!W.eq || W.ok == g_okstar));
+}
+void h_fvn(void) {
+    find_setup(); struct cub c; node_ptr x = NULL;
+    if (nondet_bool()) { Q = nondet_ni(); __CPROVER_assume(Q.h != NULL && SAME(Q, W) && SORTW(Q) && (!Q.eq || Q.ok == g_okstar)); x = Q.h; g_lo = Q.rank; }
+    __CPROVER_assume(!g_wb || (x != NULL && (x == W.h || W.rank > Q.rank)));            /* W: an element at or behind x */
+    bool x_is_value = (x == NULL) || (Q.ok & 1) == 1; g_x0 = x;
+    node_ptr r = cub_first_value_node(&c, x);
+    OBLIGATION(r == NULL || (r == Q.h && (Q.ok & 1) == 1 && Q.rank >= g_lo), "C12.walk: first_value_node returns the end of the list or an element at or behind its argument, never a dummy node");
+    OBLIGATION(!x_is_value || (r == x && !g_loaded), "C12.walk: an element (or the end) is returned as it is, without reading any next pointer - the result cannot depend on later inserts");
+    OBLIGATION(!g_wb || (r != NULL && Q.rank <= W.rank), "C12.walk: no element that is in the list behind the argument is skipped");
+    VACUITY_END();
+}
+void h_inc(void) {
+    find_setup(); struct solist_iterator it;
+    Q = nondet_ni(); __CPROVER_assume(Q.h != NULL && (Q.ok & 1) == 1 && SAME(Q, W) && SORTW(Q)); it.my_node_ptr = Q.h; g_lo = Q.rank;
+    __CPROVER_assume(!g_wb || W.rank > Q.rank);                                         /* W: an element behind the iterator's */
+    solist_iterator_preinc(&it);
+    OBLIGATION(it.my_node_ptr == NULL || (it.my_node_ptr == Q.h && (Q.ok & 1) == 1 && Q.rank > g_lo), "C12.walk: ++ moves the iterator to an element strictly behind the current one, or to the end - a traversal never sees an element twice and never a dummy node");
+    OBLIGATION(!g_wb || (it.my_node_ptr != NULL && Q.rank <= W.rank), "C12.walk: ++ does not skip an element that is in the list - a traversal sees every element that was present before it began");
+    VACUITY_END();
+}
+void h_find(void) {
+    find_setup(); struct cub c; __CPROVER_assume(!g_wb || (W.eq && W.ok == g_okstar));   /* W: an element with an equivalent key, inserted before the lookup began */
+    node_ptr r = cub_internal_find(&c, g_key);
+    OBLIGATION(r == NULL || (r == Q.h && Q.eq && Q.ok == g_okstar), "C12.find: a lookup returns null or an element whose key is equivalent to the key looked up, never a node of another key and never a dummy node");
+    OBLIGATION(!g_wb || r != NULL, "C12.find: a find started after an insert of an equivalent key returned finds the key, whatever is inserted meanwhile");
+    VACUITY_END();
+}
+void h_equal_range(void) {
+    find_setup(); struct cub c; __CPROVER_assume(!g_wb || (W.eq && W.ok == g_okstar));
+    struct vpair r = cub_internal_equal_range(&c, g_key);
+    OBLIGATION(r.first == NULL ? r.second == NULL : (g_hit_set && r.first == g_hit.h && g_hit.eq && g_hit.ok == g_okstar), "C12.find: equal_range is empty (null, null) or starts at an element whose key is equivalent to the key looked up");
+    OBLIGATION(!g_wb || (r.first != NULL && g_hit.rank <= W.rank), "C12.find: equal_range of a key that was inserted before is not empty and does not start behind that element");
+    OBLIGATION(r.first == NULL || r.second == NULL || (r.second == Q.h && (Q.ok & 1) == 1 && Q.rank > g_hit.rank), "C12.find: the end of an equal_range is an element behind its first one, or the end of the list - never a dummy node");
+    VACUITY_END();
+}
+#endif /* L_FIND */
 #endif /* C12_LIST */
+
+#ifdef C12_SKIP
+/* =====================================================================================================================================
+   The skip list of concurrent_map / concurrent_set (insert-only, lock-free: the level-0 CAS decides membership, upper levels are linked bottom-up).
+   Same representation as for the split-ordered list: nodes are opaque handles; attributes (key, height, index number, ghost rank = place in the
+   level-0 order) live in records for the handles the thread holds; every access to a level pointer of a linked node is preceded by arbitrary
+   interference constrained by the level's list invariant.  Keys are size_t ordered by <  (key_compare = std::less; not_greater_compare(a,b) = !(b<a)).
+   ===================================================================================================================================== */
+typedef size_t size_type; typedef uint16_t key_type; typedef uintptr_t node_ptr;   /* the Key template parameter: instantiated with uint16_t, std::less */
+#undef NULL
+#define NULL ((uintptr_t)0)
+enum { max_level = 32 };
+typedef uint8_t rank_t;
+#ifdef COVERS
+#define COVER(c) __CPROVER_assert(!(c), "COVER " #c)
+#else
+#define COVER(c) ((void)0)
+#endif
+
+#ifdef SK_LEVEL
+/* ---- the level generator: the height of every new node ---- */
+#include "log2.inc"
+static unsigned long g_rand;
+static unsigned long STUB_minstd_rand(void) { return g_rand; }
+#include "skiplevel.inc"
+unsigned long IN_rand;
+void h_level(void) {
+    g_rand = IN_rand = nondet_ulong(); __CPROVER_assume(g_rand >= 1 && g_rand <= 2147483646ul);     /* std::minstd_rand::min() .. max() */
+    size_t r = level_generator_call();
+    OBLIGATION(r >= 1 && r <= max_level, "C12.skip: every new node gets a height between 1 and max_level - it has a level-0 pointer (membership) and fits the head node and the position arrays");
+    VACUITY_END();
+}
+#endif
+
+#ifdef SK_HEAD
+/* ---- create_head_if_necessary: RG on my_head_ptr.  INV: null or THE head node; never changes once set.  Ghost census: heads installed. ---- */
+struct csl { node_ptr my_head_ptr; };
+static struct csl S; node_ptr g_head, g_mine; bool g_created, g_deleted, g_installed_mine; unsigned long g_installed;
+#define HINV (g_installed <= 1 && (S.my_head_ptr == NULL ? g_installed == 0 : (g_installed == 1 && S.my_head_ptr == g_head)) && (!g_installed_mine || (g_installed == 1 && g_head == g_mine)))
+static void interfere(void) { if (S.my_head_ptr == NULL && nondet_bool()) { __CPROVER_assume(g_head != g_mine); S.my_head_ptr = g_head; g_installed = 1; } }   /* another thread installs its head node */
+#define ATOMIC_LOAD_AT(site, w) ({ interfere(); (w); })
+#define ATOMIC_CAS_AT(site, w, e, d) ({ interfere(); node_ptr o_ = (w); bool r_ = (o_ == *(e)); if (r_) { (w) = (d); g_installed++; g_head = (d); g_installed_mine = ((d) == g_mine); } else *(e) = o_; \
+    __CPROVER_assert(HINV, "guarantee at " #site ": the head pointer is set once, to one head node"); r_; })
+#define ATOMIC_STORE_AT(site, w, v) do { interfere(); node_ptr o_ = (w); (w) = (v); if (o_ == NULL) g_installed++; g_head = (v); g_installed_mine = ((v) == g_mine); \
+    __CPROVER_assert(o_ == NULL && HINV, "guarantee at " #site ": the head pointer is set once, to one head node"); } while (0)
+static node_ptr STUB_create_head_node(struct csl *s) { __CPROVER_assert(!g_created, "C12.skip: at most one head node is created per call"); g_created = true; return g_mine; }
+static void STUB_delete_node(struct csl *s, node_ptr n) { __CPROVER_assert(n == g_mine && g_created && !g_installed_mine && !g_deleted, "C12.skip: only the thread's own, not installed head node is destroyed, once"); g_deleted = true; }
+#include "skiphead.inc"
+void h_head(void) {
+    g_head = nondet_uintptr_t(); g_mine = nondet_uintptr_t(); __CPROVER_assume(g_head != NULL && g_mine != NULL);
+    S.my_head_ptr = nondet_uintptr_t(); g_installed = nondet_ulong(); g_created = g_deleted = g_installed_mine = false; __CPROVER_assume(HINV);
+    node_ptr r = csl_create_head_if_necessary(&S);
+    interfere();
+    OBLIGATION(r != NULL && r == S.my_head_ptr && r == g_head && g_installed == 1, "C12.skip: every thread gets the one head node of the list, which is installed");
+    OBLIGATION(g_created ? (g_installed_mine != g_deleted) : !g_deleted, "C12.skip: a head node created by the loser of the installation race is freed, the installed one never");
+    VACUITY_END();
+}
+#endif
+
+#if defined(SK_FIND) || defined(SK_FILL) || defined(SK_INS)
+/* ---- the list model ---- */
+#ifdef SK_INS
+struct sn;
+#define SINFO_EXTRA(p) if (p == RP0.h) return RP0; if (p == RC0.h) return RC0; if (p == RPL.h) return RPL; if (p == RCL.h) return RCL;
+#define SWORD_EXTRA(q) (ssame(q, RP0) & ssame(q, RC0) & ssame(q, RPL) & ssame(q, RCL))
+#define SWLINK_EXTRA ((RP0.h == NULL | RP0.head | RP0.key != g_key) & (RC0.h == NULL | RC0.key != g_key) & (RPL.h == NULL | RPL.head | RPL.key != g_key) & (RCL.h == NULL | RCL.key != g_key))
+#else
+#define SINFO_EXTRA(p)
+#define SWORD_EXTRA(q) 1
+#define SWLINK_EXTRA 1
+#endif
+struct csl { size_type my_max_height, my_size; };
+struct sn { node_ptr h; key_type key; size_type height, idx; rank_t rank; bool head; };
+static struct sn nondet_sn_raw(void);
+static struct sn nondet_sn(void) { struct sn r = nondet_sn_raw(); r.head = nondet_bool(); return r; }   /* a bool member is 0 or 1 */
+/* all mutable ghost state in ONE object (few targets in the loop assigns clauses): the last (node, next) pair read; the thread's new node; (job skip.insert_node) the position held for
+   level 0 and for ONE arbitrary upper level g_L: prev_nodes[l], curr_nodes[l]; whether W is linked; the new node is linked at levels [0, me_levels); its private level pointers */
+struct skghost { struct sn sp, sq; bool w_linked; } GS;                      /* what a traversal changes */
+struct skghost2 { struct sn sme, rp0, rc0, rpl, rcl; bool cas_failed; size_type me_levels; int size_incs; node_ptr me_next0, me_nextL, pn0, pnL, cn0, cnL, scratch; } GM;   /* what only an insert changes */
+#define SP GS.sp
+#define SQ GS.sq
+#define SME GM.sme
+#define RP0 GM.rp0
+#define RC0 GM.rc0
+#define RPL GM.rpl
+#define RCL GM.rcl
+#define g_w_linked GS.w_linked
+#define g_cas_failed GM.cas_failed
+#define g_me_levels GM.me_levels
+#define g_size_incs GM.size_incs
+struct sn SW, HD;                  /* ONE arbitrary other node with the key K* being inserted; the head node */
+#ifdef MULTI
+#define allow_multimapping ((bool)MULTI)   /* the class template's constant */
+#else
+bool allow_multimapping;
+#endif
+key_type g_key;
+#define LESS(a, b) ((a) < (b))
+#define CMP(c, a, b) ((c) ? !((b) < (a)) : ((a) < (b)))           /* tag 0: key_compare (unique containers); tag 1: not_greater_compare (multi containers) */
+#define SELECT_COMPARATOR(multi) ((multi) ? 1 : 0)
+static struct sn sinfo(node_ptr p) {
+    __CPROVER_assert(p != NULL, "C12.safe: a null node pointer is never dereferenced");
+    if (p == SME.h) return SME; if (p == HD.h) return HD;
+    SINFO_EXTRA(p)
+    if (p == SW.h) return SW; if (p == SP.h) return SP; if (p == SQ.h) return SQ;
+    struct sn r = nondet_sn(); r.h = p; r.head = false; return r;
+}
+static key_type get_key(node_ptr p) { struct sn n = sinfo(p); __CPROVER_assert(!n.head, "C12.safe: a key is read only from an element, never from the head node (it has no value)"); return n.key; }
+#define GET_KEY(p) get_key(p)
+#define SNODE_HEIGHT(p) (sinfo(p).height)
+#define SSAME(a, b) ((a).h == NULL || (a).h != (b).h || ((a).key == (b).key && (a).rank == (b).rank && (a).height == (b).height && (a).idx == (b).idx && (a).head == (b).head))
+static bool ssame(struct sn a, struct sn b) { return (a.h == NULL) | (a.h != b.h) | ((a.key == b.key) & (a.rank == b.rank) & (a.height == b.height) & (a.idx == b.idx) & (a.head == b.head)); }
+/* p before q in a level list: ranks grow, keys do not decrease (unique-key containers: strictly grow); the head precedes everything */
+static bool keyord(struct sn p, struct sn q) { return p.head | (allow_multimapping ? (p.key <= q.key) : (p.key < q.key)); }
+/* W against a linked node x: distinct nodes have distinct ranks, rank order implies key order */
+static bool ssortedw(struct sn x) { return !g_w_linked | (x.head ? (SW.rank > x.rank) : 0) | (x.head ? 0 : 1) & (((x.h == SW.h) | (x.rank != SW.rank)) & (!(SW.rank < x.rank) | (allow_multimapping ? SW.key <= x.key : SW.key < x.key) | (x.h == SW.h)) & (!(SW.rank > x.rank) | (allow_multimapping ? SW.key >= x.key : SW.key > x.key) | (x.h == SW.h))); }
+/* the level-`lv` pointer of the linked node p holds q */
+static bool sword_inv(struct sn p, size_type lv, struct sn q) {
+    bool tail = (lv != 0) | !g_w_linked | !(SW.rank > p.rank) | p.head & 0;
+    bool link = (q.h != p.h) & !q.head & (q.rank > p.rank) & keyord(p, q) & (q.height > lv) & (q.height <= max_level) & ((q.h != SME.h) | (g_me_levels > lv)) & ((q.h != SW.h) | g_w_linked) & ssortedw(q)
+              & ssame(q, SP) & ssame(q, SQ) & ssame(q, SW) & ssame(q, SME) & ssame(q, HD) & SWORD_EXTRA(q)
+              & ((lv != 0) | !g_w_linked | !((SW.rank > p.rank) & (SW.rank < q.rank)));        /* level 0 holds every linked node: W is not strictly between p and q */
+    return ssortedw(p) & (q.h == NULL ? tail : link);
+}
+/* rely (unique-key containers; the guarantee of the other inserters): a node with key K* is linked at level 0 only while no other node with that key is linked */
+static void interfere_w(void) {
+#if defined(SK_INS) && !defined(SK_L0)
+    return;                                                              /* W matters for level 0 only */
+#endif
+    if (!g_w_linked && nondet_bool()) { g_w_linked = true; if (!allow_multimapping) __CPROVER_assume((g_me_levels == 0) & (SP.h == NULL | SP.head | SP.key != g_key) & (SQ.h == NULL | SQ.key != g_key) & SWLINK_EXTRA); } }
+struct spq { struct sn p, q; };
+static struct spq shared_level_word(node_ptr n, size_type lv) {
+    struct spq r; r.p = sinfo(n); interfere_w(); r.q = nondet_sn(); __CPROVER_assume(sword_inv(r.p, lv, r.q));
+    return r;
+}
+#define PRIVATE_LEVEL(n, lv) ((n) == SME.h && (lv) >= g_me_levels)
+#ifndef SK_INS
+#define ME_NEXT(lv) ((node_ptr)0)
+#endif
+static node_ptr do_load_level(node_ptr n, size_type lv) {
+    __CPROVER_assert(n != NULL, "C12.safe: a null node pointer is never dereferenced");
+    __CPROVER_assert(lv < sinfo(n).height, "C12.safe: a level pointer is read only below the node's height (the node has no pointer at that level)");
+    if (PRIVATE_LEVEL(n, lv)) return ME_NEXT(lv);
+    struct spq r = shared_level_word(n, lv); SP = r.p; SQ = r.q; return SQ.h;
+}
+#define SNODE_NEXT_WORD(p, lv) (p), (lv)
+#define ATOMIC_LOAD_AT(site, ...) ALOAD_(site, __VA_ARGS__, 0)
+#define ALOAD_(site, a, b, ...) ALOAD_##site(a, b)
+#define ALOAD_snode_next_LOAD_1(a, b) do_load_level(a, b)
+#endif
+
+#ifdef SK_FIND
+/* ---- internal_find_position (both overloads): one level of the descent, under concurrent inserts ---- */
+size_type g_lv; rank_t g_lo;
+#define SNODE_INDEX(p) (sinfo(p).idx)
+#define SNODE_SET_INDEX(p, v) ((void)0)
+#define ATOMIC_STORE_AT(site, ...) ASTORE_(site, __VA_ARGS__)
+#define ASTORE_(site, p, lv, v) ((void)0)
+#include "snodes.inc"
+/* the walk stands on prev (= SP after the first read; SQ = the node read from it); prev precedes the key: it is the head or compares before it */
+#define BEFORE(x, cmpv) ((x).head || CMP(cmpv, (x).key, g_key))
+#define FPINV(cmpv) ((*prev) == SP.h && curr == SQ.h && SP.h != NULL && SP.h != SQ.h && SP.height > level && SP.height <= max_level && BEFORE(SP, cmpv) && SP.rank >= g_lo && level == g_lv \
+    && (SQ.h == NULL || (!SQ.head && SQ.height > level && SQ.height <= max_level && SQ.rank > SP.rank)) && SP.h != SME.h && SQ.h != SME.h && SP.head == (SP.h == HD.h) && SSAME(SP, HD) && SSAME(SQ, HD) && SSAME(SP, SW) && SSAME(SQ, SW))
+/* every step of the walk moves strictly forward in the level list (ranks grow) */
+#define SK_FORWARD __CPROVER_decreases(SQ.h == NULL ? 0 : 256 - (int)SQ.rank)
+#define LOOP_fpk_1 __CPROVER_assigns(*prev, curr, GS) __CPROVER_loop_invariant(FPINV(cmp) && key == g_key) SK_FORWARD
+#define LOOP_fpn_1 __CPROVER_assigns(*prev, curr, GS) __CPROVER_loop_invariant(FPINV(cmp) && node == SME.h) SK_FORWARD
+#include "skipfind.inc"
+static void skip_setup(void) {
+    SP = nondet_sn(); SQ = nondet_sn(); SW = nondet_sn(); SME = nondet_sn(); HD = nondet_sn(); SP.h = NULL; SQ.h = NULL;
+#ifndef MULTI
+    allow_multimapping = nondet_bool();
+#endif
+    g_w_linked = nondet_bool(); g_me_levels = 0; g_key = nondet_ushort();
+    __CPROVER_assume(HD.h != NULL && HD.head && HD.height == max_level && HD.rank == 0 && SME.h != NULL && SME.h != HD.h && !SME.head && SME.key == g_key && SME.height >= 1 && SME.height <= max_level
+        && SW.h != NULL && SW.h != HD.h && SW.h != SME.h && !SW.head && SW.key == g_key && SW.height >= 1 && SW.height <= max_level);
+}
+static struct sn start_node(void) {   /* prev on entry: the head, or a linked node that precedes the key, with a pointer at this level */
+    struct sn x = nondet_sn(); if (nondet_bool()) x = HD; __CPROVER_assume(x.h != NULL && x.h != SME.h && (x.h == HD.h ? x.head : (!x.head && x.h != SW.h)) && x.height > g_lv && x.height <= max_level && ssame(x, HD) && ssame(x, SW));
+    return x;
+}
+void h_find_position_key(void) {
+    skip_setup(); struct csl c; g_lv = nondet_size_t(); __CPROVER_assume(g_lv < max_level); int cmp = SELECT_COMPARATOR(allow_multimapping);
+    struct sn x = start_node(); __CPROVER_assume(BEFORE(x, cmp)); SQ = x; g_lo = x.rank; node_ptr prev = x.h;
+    node_ptr curr = csl_find_position_key(&c, g_lv, &prev, g_key, cmp);
+    OBLIGATION(prev == SP.h && curr == SQ.h && SP.rank >= g_lo && SP.height > g_lv && BEFORE(SP, cmp), "C12.skip: find_position leaves prev on a node of this level's list that still precedes the key (the head, or a key that compares before it), at or behind where it started");
+    OBLIGATION(curr == NULL || (!SQ.head && !CMP(cmp, SQ.key, g_key) && SQ.height > g_lv && SQ.rank > SP.rank), "C12.skip: the node returned is the successor it read from prev at this level and does not compare before the key: the key's place at this level is between prev and it");
+    VACUITY_END();
+}
+void h_find_position_node(void) {
+    skip_setup(); struct csl c; g_lv = nondet_size_t(); __CPROVER_assume(g_lv < max_level); int cmp = SELECT_COMPARATOR(allow_multimapping);
+    struct sn x = start_node(); __CPROVER_assume(BEFORE(x, cmp)); SQ = x; g_lo = x.rank; node_ptr prev = x.h;
+    node_ptr curr = csl_find_position_node(&c, g_lv, &prev, SME.h, cmp);
+    OBLIGATION(prev == SP.h && curr == SQ.h && SP.rank >= g_lo && SP.height > g_lv && BEFORE(SP, cmp), "C12.skip: find_position leaves prev on a node of this level's list that still precedes the new node's key, at or behind where it started");
+    OBLIGATION(curr == NULL || (!SQ.head && SQ.height > g_lv && SQ.rank > SP.rank && (allow_multimapping ? SQ.key >= g_key : !(SQ.key < g_key))), "C12.skip: the node returned is the successor read from prev at this level and its key is not smaller than the new node's");
+    VACUITY_END();
+}
+#endif
+
+#ifdef SK_INS
+/* ---- internal_insert_node: the level-0 CAS decides membership; upper levels are linked bottom-up; any number of threads; unique and multi ----
+   fill_prev_curr_arrays and internal_find_position are used through their contracts (jobs skip.fill, skip.find_position).  Facts are kept about level 0 and about
+   ONE arbitrary upper level g_L (universal by arbitrariness); the other entries of the position arrays are arbitrary. */
+size_type g_L;
+/* The position arrays prev_nodes[] / curr_nodes[] and the new node's level pointers are kept for level 0 and for level g_L only (ghost scalars); entries at the other levels read as
+   (head, null) - an instance of fill_prev_curr_arrays' contract - and writes to them are dropped: levels exchange no data, so what is proved about level 0 and level g_L does not depend on them. */
+#ifdef SK_L0   /* this job keeps the facts about level 0 (g_L == 0); the twin job keeps those about one arbitrary upper level g_L >= 1 */
+#define TRACKED_LEVEL(i) ((i) == 0)
+#else
+#define TRACKED_LEVEL(i) ((i) == g_L)
+#endif
+#define IDX_OK(i) __CPROVER_assert((i) < max_level, "C12.safe: the position arrays are indexed below max_level")
+#define ARR_RD(a, i) ARR_RD_##a(i)
+#define ARR_RD_prev_nodes(i) (IDX_OK(i), !TRACKED_LEVEL(i) ? HD.h : (i) == 0 ? GM.pn0 : GM.pnL)
+#define ARR_RD_curr_nodes(i) (IDX_OK(i), !TRACKED_LEVEL(i) ? NULL : (i) == 0 ? GM.cn0 : GM.cnL)
+#define ARR_WR(a, i, v) ARR_WR_##a((i), (v))
+#define ARR_WR_prev_nodes(i, v) do { node_ptr v_ = (v); IDX_OK(i); if (TRACKED_LEVEL(i)) { if ((i) == 0) GM.pn0 = v_; else GM.pnL = v_; } } while (0)
+#define ARR_WR_curr_nodes(i, v) do { node_ptr v_ = (v); IDX_OK(i); if (TRACKED_LEVEL(i)) { if ((i) == 0) GM.cn0 = v_; else GM.cnL = v_; } } while (0)
+#define ARR_REF(a, i) (IDX_OK(i), !TRACKED_LEVEL(i) ? &GM.scratch : (i) == 0 ? &GM.pn0 : &GM.pnL)
+#define ME_NEXT(lv) (!TRACKED_LEVEL(lv) ? (node_ptr)0 : (lv) == 0 ? GM.me_next0 : GM.me_nextL)
+#define SNODE_INDEX(p) (sinfo(p).idx)
+#define SNODE_SET_INDEX(p, v) do { __CPROVER_assert((p) == SME.h && g_me_levels == 0, "C12.skip: an index number is written only in the thread's own node before it is linked"); SME.idx = (v); } while (0)
+#define ATOMIC_STORE_AT(site, ...) ASTORE_(site, __VA_ARGS__)
+#define ASTORE_(site, p, lv, v) do { __CPROVER_assert(PRIVATE_LEVEL(p, lv) && (lv) < SME.height, "C12.skip: a level pointer is written by a plain store only in the thread's own node, at a level where it is not linked yet (linked pointers change by CAS only)"); if (TRACKED_LEVEL(lv)) { if ((lv) == 0) GM.me_next0 = (v); else GM.me_nextL = (v); } } while (0)
+#include "snodes.inc"
+#define BEFOREK(x) ((x).head || CMP(SELECT_COMPARATOR(allow_multimapping), (x).key, g_key))
+static struct sn pos_prev(size_type l) {   /* a node of the level-l list that precedes the key */
+    struct sn p = nondet_sn(); if (nondet_bool()) p = HD;
+    __CPROVER_assume(p.h != NULL && p.h != SME.h && (p.head ? p.h == HD.h : p.h != HD.h) && ssame(p, HD) && ssame(p, SW) && ssame(p, RP0) && ssame(p, RC0) && ssame(p, RPL) && ssame(p, RCL)
+        && (p.h != SW.h || g_w_linked) && p.height > l && p.height <= max_level && BEFOREK(p) && ssortedw(p));
+    return p;
+}
+static struct sn pos_curr(struct sn p, size_type l) {   /* null, or a node of the level-l list behind p that does not compare before the key */
+    struct sn c = nondet_sn(); if (nondet_bool()) { c.h = NULL; return c; }
+    __CPROVER_assume(c.h != NULL && c.h != SME.h && !c.head && c.h != HD.h && c.h != p.h && ssame(c, SW) && ssame(c, RP0) && ssame(c, RC0) && ssame(c, RPL) && ssame(c, RCL) && ssame(c, p)
+        && (c.h != SW.h || g_w_linked) && c.height > l && c.height <= max_level && !CMP(SELECT_COMPARATOR(allow_multimapping), c.key, g_key) && c.rank > p.rank && ssortedw(c));
+    return c;
+}
+static node_ptr STUB_create_head_if_necessary(struct csl *s) { return HD.h; }
+/* contract of fill_prev_curr_arrays (job skip.fill): for every level below max(height of the list, height of the node): prev_nodes[l] is the head or a node of level l that compares before the key,
+   curr_nodes[l] is null or a node of level l behind it that does not compare before the key */
+static void STUB_fill_prev_curr_arrays(struct csl *s, node_ptr *pn, node_ptr *cn, node_ptr node, key_type key, int cmp, node_ptr head) {
+    __CPROVER_assert(node == SME.h && key == g_key && head == HD.h && cmp == SELECT_COMPARATOR(allow_multimapping), "C12.skip: the position is searched for the new node's key, from the head, with the container's comparator");
+    interfere_w();
+    RP0.h = NULL; RC0.h = NULL; RPL.h = NULL; RCL.h = NULL;
+    if (TRACKED_LEVEL(0)) { RP0 = pos_prev(0); RC0 = pos_curr(RP0, 0); GM.pn0 = RP0.h; GM.cn0 = RC0.h; }
+    else { RPL = pos_prev(g_L); RCL = pos_curr(RPL, g_L); GM.pnL = RPL.h; GM.cnL = RCL.h; }
+}
+/* contract of internal_find_position, node overload (job skip.find_position.node) */
+static node_ptr STUB_find_position_node(struct csl *s, size_type lev, node_ptr *prev, node_ptr node, int cmp) {
+    __CPROVER_assert(node == SME.h && cmp == SELECT_COMPARATOR(allow_multimapping), "C12.skip: the position is searched again for the new node, with the container's comparator");
+    interfere_w();
+    if (lev == 0 || !TRACKED_LEVEL(lev)) { *prev = HD.h; return NULL; }
+    __CPROVER_assert(*prev == RPL.h && RPL.h != NULL && RPL.height > lev && BEFOREK(RPL), "C12.skip: the search at a level resumes from a node of that level's list that precedes the new node (the position found before)");
+    struct sn old = RPL; struct sn np = pos_prev(lev); if (nondet_bool()) np = old; __CPROVER_assume(np.rank >= old.rank);
+    RCL.h = NULL; RPL = np; RCL = pos_curr(RPL, lev); *prev = RPL.h; return RCL.h;
+}
+struct scas { bool ok; node_ptr old; };
+static struct scas do_cas_level(node_ptr n, size_type lv, node_ptr e, node_ptr d) {
+    struct scas c; bool tracked = TRACKED_LEVEL(lv); struct spq r;                 /* facts are kept for level 0 and level g_L; at the other levels the arrays hold arbitrary values */
+    if (tracked) { __CPROVER_assert(n != NULL, "C12.safe: a null node pointer is never dereferenced");
+        __CPROVER_assert(!PRIVATE_LEVEL(n, lv), "C12.skip: a node is published by a CAS on a level pointer of a node that is in the list"); }
+    if (tracked) { r = shared_level_word(n, lv); c.old = r.q.h; c.ok = (r.q.h == e); } else { interfere_w(); c.old = nondet_uintptr_t(); c.ok = (c.old == e); }
+    if (!c.ok) { g_cas_failed = true; return c; }
+    __CPROVER_assert(d == SME.h, "C12.skip: the node linked is the node being inserted");
+    __CPROVER_assert(g_me_levels == lv, "C12.skip: levels are linked bottom-up, each exactly once: level 0 (membership) first, level l only after level l-1");
+    __CPROVER_assert(lv < SME.height, "C12.skip: a node is linked only at levels below its height");
+    __CPROVER_assert(!tracked || ME_NEXT(lv) == e, "C12.skip: the new node's pointer at the level is the successor it is put in front of - nothing behind the insertion point becomes unreachable at that level");
+    if (tracked) {
+        __CPROVER_assert(r.p.height > lv, "C12.skip: the predecessor is a node of that level's list");
+        if (lv == 0 && !allow_multimapping) {
+            __CPROVER_assert((r.p.head || r.p.key < SME.key) && (e == NULL || SME.key < r.q.key), "C12.sorted: a unique-key list stays strictly sorted by the comparator across the level-0 link");
+            __CPROVER_assert(!g_w_linked, "C12.unique: when an insert links its node at level 0 no other node with an equivalent key is in the list - of several concurrent inserts of one absent key exactly one succeeds");
+        } else
+            __CPROVER_assert((r.p.head || r.p.key <= SME.key) && (e == NULL || SME.key <= r.q.key), "C12.sorted: every level stays sorted by the comparator across the link (predecessor <= new node <= successor)");
+    }
+    g_me_levels = lv + 1; return c;
+}
+#define ATOMIC_CAS_AT(site, ...) ACAS_##site(__VA_ARGS__)
+#define ACAS_LEVEL(p, lv, e, d) ({ struct scas c_ = do_cas_level((p), (lv), *(e), (d)); if (!c_.ok) *(e) = c_.old; c_.ok; })
+#define ACAS_ins_CAS_1(p, lv, e, d) ACAS_LEVEL(p, lv, e, d)
+#define ACAS_ins_CAS_3(p, lv, e, d) ACAS_LEVEL(p, lv, e, d)
+#define ACAS_ins_CAS_4(p, lv, e, d) ACAS_LEVEL(p, lv, e, d)
+/* my_max_height: rely/guarantee: never above max_level, never lowered */
+static void interfere_mh(struct csl *s) { size_type v = nondet_size_t(); __CPROVER_assume(v >= s->my_max_height && v <= max_level); s->my_max_height = v; }
+#define ACAS_ins_CAS_2(w, e, d) ({ interfere_mh(self); size_type o_ = (w); bool r_ = (o_ == *(e)); if (r_) { \
+    __CPROVER_assert((d) >= o_ && (d) <= max_level, "guarantee: the height of the list is never lowered and never exceeds max_level"); (w) = (d); } else *(e) = o_; r_; })
+#undef ALOAD_
+#define ALOAD_(site, a, b, ...) ALOAD_##site(a, b)
+#define ALOAD_ins_LOAD_1(a, b) (interfere_mh(self), (a))
+#define ALOAD_ins_LOAD_2(a, b) (interfere_mh(self), (a))
+#define ATOMIC_PREINC_AT(site, w) (g_size_incs++, ++(w))
+#define COMMON (new_node == SME.h && new_height == SME.height && head_node == HD.h && compare == SELECT_COMPARATOR(allow_multimapping) && self->my_max_height <= max_level && g_size_incs == 0 \
+    && SME.height >= 1 && SME.height <= max_level && SME.key == g_key && !SME.head && g_me_levels <= SME.height && NO_TWIN)
+#ifdef SK_L0
+#define NO_TWIN (allow_multimapping || g_me_levels == 0 || !g_w_linked)
+#else
+#define NO_TWIN 1
+#endif
+#define FACTSL (g_L >= 1 && g_L < max_level && GM.pnL == RPL.h && GM.cnL == RCL.h && RPL.h != NULL && RPL.h != SME.h && RPL.height > g_L && RPL.height <= max_level \
+    && (RPL.head ? RPL.h == HD.h : RPL.h != HD.h) && BEFOREK(RPL) && SSAME(RPL, HD) && SSAME(RCL, HD) && SSAME(RPL, SW) && SSAME(RCL, SW) && SSAME(RPL, RP0) && SSAME(RPL, RC0) && SSAME(RCL, RP0) && SSAME(RCL, RC0) \
+    && (RCL.h == NULL || (!RCL.head && RCL.h != SME.h && RCL.h != RPL.h && RCL.height > g_L && RCL.height <= max_level && RCL.key >= g_key)))
+#define INS_ASSIGNS GS, GM, *self
+#define LOOP_ins_1 __CPROVER_assigns(INS_ASSIGNS) __CPROVER_loop_invariant(COMMON && g_me_levels == 0)
+#define LOOP_ins_2 __CPROVER_assigns(max_height, *self) __CPROVER_loop_invariant(COMMON && g_me_levels == 1 && max_height <= self->my_max_height)
+#define LOOP_ins_3 __CPROVER_assigns(level, prev, next, INS_ASSIGNS) __CPROVER_loop_invariant(COMMON && level >= 1 && level <= new_height && g_me_levels == level && self->my_max_height >= new_height && (g_L < level || g_L >= new_height || FACTSL)) \
+    __CPROVER_decreases(new_height - level)
+#define LOOP_ins_4 __CPROVER_assigns(prev, next, INS_ASSIGNS) __CPROVER_loop_invariant(COMMON && level >= 1 && level < new_height && g_me_levels == level && self->my_max_height >= new_height && (g_L < level || g_L >= new_height || FACTSL))
+#define LOOP_ins_5 __CPROVER_assigns(lev, GS, GM) \
+    __CPROVER_loop_invariant(COMMON && level >= 1 && level < new_height && lev >= level && lev <= new_height && g_me_levels == level && self->my_max_height >= new_height && (g_L < level || g_L >= new_height || FACTSL)) __CPROVER_decreases(new_height - lev)
+struct ires { node_ptr first; bool second; };
+#include "skipfound.inc"
+#include "skipins.inc"
+size_t IN_key; bool IN_multi;
+void h_skip_insert(void) {
+    SP = nondet_sn(); SQ = nondet_sn(); SW = nondet_sn(); SME = nondet_sn(); HD = nondet_sn(); SP.h = NULL; SQ.h = NULL; RP0 = nondet_sn(); RC0 = nondet_sn(); RPL = nondet_sn(); RCL = nondet_sn(); RP0.h = RC0.h = RPL.h = RCL.h = NULL;
+#ifndef MULTI
+    allow_multimapping = IN_multi = nondet_bool();
+#endif
+    g_w_linked = nondet_bool(); g_me_levels = 0; g_key = IN_key = nondet_ushort(); g_size_incs = 0; g_cas_failed = false;
+    g_L = nondet_size_t(); __CPROVER_assume(g_L < max_level);
+#ifdef SK_L0
+    __CPROVER_assume(g_L == 0);
+#else
+    __CPROVER_assume(g_L >= 1); g_w_linked = false;
+#endif
+
+    __CPROVER_assume(HD.h != NULL && HD.head && HD.height == max_level && HD.rank == 0 && SME.h != NULL && SME.h != HD.h && !SME.head && SME.key == g_key && SME.height >= 1 && SME.height <= max_level
+        && SW.h != NULL && SW.h != HD.h && SW.h != SME.h && !SW.head && SW.key == g_key && SW.height >= 1 && SW.height <= max_level);
+    struct csl c; c.my_max_height = nondet_size_t(); c.my_size = nondet_size_t(); __CPROVER_assume(c.my_max_height <= max_level);
+    struct ires r = csl_internal_insert_node(&c, SME.h);
+    OBLIGATION(r.second == (g_me_levels >= 1), "C12.insert: insert reports success exactly when its node was linked at level 0 (membership)");
+    if (r.second) {
+        OBLIGATION(r.first == SME.h && g_size_incs == 1, "C12.insert: a successful insert returns its own node and counts the element once");
+        OBLIGATION(g_me_levels == SME.height, "C12.skip: when insert returns the node is linked at every level of its height");
+        interfere_mh(&c); OBLIGATION(c.my_max_height >= SME.height, "C12.skip: the height of the list covers every level the node is linked at - lookups starting at the head's top level can reach it through all its levels");
+    } else {
+        OBLIGATION(!allow_multimapping, "C12.insert: a multi container accepts every insert");
+#ifdef SK_L0
+        OBLIGATION(r.first != NULL && r.first != SME.h && r.first == RC0.h && RC0.key == g_key && g_size_incs == 0, "C12.unique: an insert that fails returns a node of the list whose key is equivalent (the loser finds the winner's node); nothing is counted");
+#endif
+    }
+#ifdef SK_L0
+    OBLIGATION(allow_multimapping || !(g_me_levels >= 1 && g_w_linked), "C12.unique: a unique-key container never holds two nodes with equivalent keys");
+#endif
+    COVER(r.second && !allow_multimapping && SME.height > 3 && g_L == 2); COVER(!r.second); COVER(r.second && allow_multimapping && g_cas_failed && SME.height > 2);
+    VACUITY_END();
+}
+#endif
+#endif /* C12_SKIP */
